@@ -343,8 +343,11 @@ def _build(spec, rso_mod=None, variant=None):
         sargs = tuple(dset_constr)
     elif how == 2:
         sargs = (tuple(dset_constr[:1]), list(dset_constr[1:]))
-    else:
+    elif how == 3:
         sargs = ((c_ for c_ in dset_constr),)          # a generator
+    else:
+        # nested to depth three
+        sargs = ([tuple(dset_constr[:1]), [list(dset_constr[1:])]],)
     if mode in ('min', 'minmax'):
         m.minmax(obj, *sargs)
     else:
